@@ -6,8 +6,15 @@ package auth
 
 //@ func (*Auth).Configure
 //@   prop C20
+//@   call store.strictMode #1 requires [strictness-remembered] arg(0) == auth && arg(1) == config.Strictmode
+//@   ensures [strictness-always-remembered] isNilIface(result) ==> did(call store.strictMode #1)
 //@   ensures [strict-needs-pbdf] config.Strictmode && old(auth.config.Irma.SchemeManager) != "pbdf" ==> !isNilIface(result)
 //@   call notary.NewNotary #1 requires arg(0).StrictMode == config.Strictmode
 //@   call oauth.NewRelyingParty #1 requires arg(6) == config.Strictmode
 //@   call (oauth.AuthorizationServer).Configure #1 requires arg(2) == config.Strictmode
 //@   cover call (oauth.AuthorizationServer).Configure #1
+
+// The strictness of the node is what the IAM / OpenID4VP client is built with.
+//@ func (*Auth).IAMClient
+//@   prop C20
+//@   call iam.NewClient #1 requires [client-strictness-is-configured-strictness] arg(5) == auth.strictMode
